@@ -147,7 +147,7 @@ r('rf-resolve-helper',
 # ---- refactors written by independent sub-agents (three per property area; they saw the property text and a scratch worktree only).
 # Each was required to be behaviour-preserving, to build in all four feature sets and to leave the suite unchanged; every check runs on each.
 for _area in ('C01', 'C02', 'C03', 'C04', 'C05', 'C06', 'C07', 'C08', 'C10', 'C11', 'C12', 'C14', 'C15', 'C16', 'C17', 'C18', 'C19', 'C20'):
-    for _i in (1, 2, 3, 4, 5, 6):          # r1-r3: first round, r4-r6: second round (told what the first had done)
+    for _i in (1, 2, 3, 4, 5, 6, 7, 8, 9):          # r1-r3: first round, r4-r6: second, r7-r9: third (each told what the earlier ones had done)
         import os as _os
         if _os.path.exists(_os.path.join(_os.path.dirname(_os.path.dirname(_os.path.abspath(__file__))), 'selftest/refactor_diffs/%s-r%d.diff' % (_area, _i))):
             r('agent-%s-r%d' % (_area, _i), diff='selftest/refactor_diffs/%s-r%d.diff' % (_area, _i))
@@ -160,5 +160,24 @@ r('rf-remainder-other-side',
   ('src/osu/performance/mod.rs', "            let remaining = n_objects.saturating_sub(n300 + n100 + n50 + misses);",
    "            let remaining = n_remaining.saturating_sub(n300 + n100 + n50);"),
   props=['C12'])
+
+
+# the helper extraction of seed C05-3 with the guard kept (correct version): start_column() tests the flag AND the free column
+r('rf-start-column-helper',
+  ('src/mania/convert/pattern_generator/path_object.rs', "        if self.convert_type.contains(PatternType::FORCE_NOT_STACK) {\n            self.find_available_column(column, None, &[self.prev_pattern])",
+   "        if self.convert_type.contains(PatternType::FORCE_NOT_STACK) && self.prev_has_free_column() {\n            self.find_available_column(column, None, &[self.prev_pattern])"),
+  diff='selftest/seed_diffs/C05-3.diff', props=['C05', 'C19', 'C01'])
+
+
+# the whole refactor of seed C01-3 (shared clamp_combo helper, catch generate_state rebuilt around tuples) with its one slip repaired
+r('rf-clamp-combo-helper',
+  ('src/catch/performance/mod.rs', "            misses,\n        };\n\n        self.combo = Some(max_combo);", "            misses,\n        };\n\n        self.combo = Some(state.max_combo);"),
+  diff='selftest/seed_diffs/C01-3.diff', props=['C12', 'C01', 'C18', 'C04', 'C03'])
+
+
+# the refactor of seed C11-3 (ModsDependent::clamped, f64_to_non_zero_u64 helper, into_difficulty as one struct literal) with the clamp kept
+r('rf-inspect-literal-clamped',
+  ('src/any/difficulty/inspect.rs', "            clock_rate: clock_rate.map(f64_to_non_zero_u64),", "            clock_rate: clock_rate.map(|rate| f64_to_non_zero_u64(rate.clamp(0.01, 100.0))),"),
+  diff='selftest/seed_diffs/C11-3.diff', props=['C11', 'C18', 'C08', 'C14'])
 
 REFACTORS = R
